@@ -618,11 +618,19 @@ class Node:
 
     def reset_children(self):
         """Reset children to empty list.
+
+        Everything aggregated from the children is reset as well, it is
+        accumulated again as the children are added back.
         """
         for child in self.children_iter():
             child.parent = None
         self.children = list()
         self.children_by_name = dict()
+        self.affinity_counters = collections.Counter()
+        self.traits = TraitSet(self.traits.self_traits)
+        self.labels = set()
+        self.free_capacity = zero_capacity()
+        self.valid_until = 0
 
     def add_node(self, node):
         """Add child node, set the traits and propagate traits up.
@@ -774,6 +782,13 @@ class Bucket(Node):
             self.set_affinity_strategy(affinity, Bucket._default_strategy_t)
 
         return self.affinity_strategies[affinity]
+
+    def reset_children(self):
+        """Reset children to empty list.
+        """
+        super(Bucket, self).reset_children()
+        # Strategies keep a cursor into the old children list.
+        self.affinity_strategies = dict()
 
     def adjust_capacity_up(self, new_capacity):
         """Node can only increase capacity.
